@@ -15,7 +15,7 @@ demo=$(ls "$src" | grep -E '_test\.go$|\.go$' | head -1)
 dir=$(grep -oE 'pkg/[A-Za-z0-9_/]+' "$src/$demo" | head -1)
 [ -d "$wt/$dir" ] || { echo "cannot place demo ($dir)"; exit 3; }
 dir=${dir%/}
-run_demo() { ( cd "$wt" && go test $GOTESTFLAGS -vet=off -count=1 -run "$(grep -oE 'func (Test[A-Za-z0-9_]+)' "$src/$demo" | awk '{print $2}' | paste -sd'|')" ./$dir/ 2>&1 | grep -a -E "^(ok|FAIL|---|panic)" | head -8 ); }
+run_demo() { ( cd "$wt" && go test ${GOTESTFLAGS:-} -vet=off -count=1 -run "$(grep -oE 'func (Test[A-Za-z0-9_]+)' "$src/$demo" | awk '{print $2}' | paste -sd'|')" ./$dir/ 2>&1 | grep -a -E "^(ok|FAIL|---|panic)" | head -8 ); }
 cp "$src/$demo" "$wt/$dir/zz_seed_demo_test.go"
 echo "## demo on unmodified tree"; r0=$(run_demo); echo "$r0"
 git apply "$src/patch.diff" || { echo "patch does not apply"; exit 3; }
